@@ -581,7 +581,14 @@ func (c *tunnelChannel) close(err error) bool {
 
 	c.finished = true
 	if err == nil {
-		err = io.EOF
+		if ctxErr := c.ctx.Err(); ctxErr != nil {
+			// Not a clean close: the context of the underlying stream has
+			// already ended (cancelled, timed out, or the stream failed),
+			// and that is the reason the channel is closing.
+			err = ctxErr
+		} else {
+			err = io.EOF
+		}
 	}
 	c.err = err
 	for _, st := range c.streams {
